@@ -63,8 +63,8 @@ main = main_with_sys(
     build_cases,
     "c17_assigned_requests",
     {
-        "quick": {"c17_assigned_requests": 3000, "c17_interrupted_dispatches": 200, "c17_out_of_energy_en_route": 10, "sys_transitions": 20000, "cosim_change_membership_of_assigned_request": 10, "cosim_waiting_request_opened_to_second_fleet": 50, "cosim_vehicle_en_route_moved_out_of_the_requests_fleet": 20, "c17_refused_instructions_en_route": 50},
-        "thorough": {"c17_assigned_requests": 60000, "c17_interrupted_dispatches": 4000, "c17_out_of_energy_en_route": 200, "sys_transitions": 500000, "cosim_change_membership_of_assigned_request": 100, "cosim_waiting_request_opened_to_second_fleet": 500, "cosim_vehicle_en_route_moved_out_of_the_requests_fleet": 200, "c17_refused_instructions_en_route": 500},
+        "quick": {"c17_assigned_requests": 3000, "c17_interrupted_dispatches": 200, "c17_out_of_energy_en_route": 10, "sys_transitions": 20000, "cosim_change_membership_of_assigned_request": 10, "cosim_waiting_request_opened_to_second_fleet": 50, "cosim_vehicle_en_route_moved_out_of_the_requests_fleet": 20, "c17_refused_instructions_en_route": 50, "cosim_pop_and_put_back_a_vehicle_on_its_way_to_a_request": 40},
+        "thorough": {"c17_assigned_requests": 60000, "c17_interrupted_dispatches": 4000, "c17_out_of_energy_en_route": 200, "sys_transitions": 500000, "cosim_change_membership_of_assigned_request": 100, "cosim_waiting_request_opened_to_second_fleet": 500, "cosim_vehicle_en_route_moved_out_of_the_requests_fleet": 200, "c17_refused_instructions_en_route": 500, "cosim_pop_and_put_back_a_vehicle_on_its_way_to_a_request": 160},
     },
     "journeys started with too little energy (matching thresholds lowered so the built-in dispatcher sends nearly empty vehicles), hostile re-dispatch / interruption / OutOfService instructions, cancellations while en route, interruption-only generators whose (mostly refused) instructions reach vehicles en route, a co-simulation client opening assigned requests to further fleets between calls; "
     "in every state each waiting request that records a vehicle must find it in DispatchTrip to that request (and under built-in control at most one vehicle per request); the systematic driver adds every instruction variant "
